@@ -256,26 +256,6 @@ def raft_stats(case, res):
     return st
 
 
-# ---------------------------------------------------------------------------- level `other`: explanation key
-
-
-def standard_check_explained(ctx, spec):
-    """vlib.standard_check, adding coverage.explanation (required for level `other`) without
-    touching the shared file."""
-    orig = vlib.finish
-
-    def finish(ctx2, level, coverage, assumptions, extra=None):
-        if getattr(spec, "explanation", None):
-            coverage["explanation"] = spec.explanation
-        return orig(ctx2, level, coverage, assumptions, extra)
-
-    vlib.finish = finish
-    try:
-        vlib.standard_check(ctx, spec)
-    finally:
-        vlib.finish = orig
-
-
 # ============================================================================ C39 quorum helpers
 
 Q_INST = [(1, 1), (2, 2), (3, 3), (1, 2), (1, 3), (2, 3), (2, 4)]
